@@ -247,7 +247,9 @@ impl Engine for C03 {
             let feats = scale_features(parts[0], parts[1].parse().unwrap_or(0));
             let failures = match r.died {
                 Some(why) => vec![Failure {
-                    clause: if why.contains("horizon") { "hang".into() } else { "abort".into() },
+                    // stack overflow, memory exhaustion and not finishing within the horizon are one
+                    // clause: which of them ends a run near the limit is not deterministic
+                    clause: "no-completion".into(),
                     site: String::new(),
                     features: feats,
                     detail: format!("scale family {}: {}", rest, why),
